@@ -42,12 +42,15 @@ pub fn run_c01(r: &mut Report) {
         ("unsigned-layout", vec![], owner_keys(&[&o1]), false),
     ];
     for (id, signers, keys, expect) in cases {
-        let (lay, d) = simple(&signers, 30);
-        let n = keys.len();
-        let res = no_panic(|| in_toto_verify(&lay, keys, d.path().to_str().unwrap(), None));
-        let ok = matches!(&res, Ok(v) if v.is_ok() == expect);
-        r.case(id, json!({"signers": signers.len(), "caller_keys": n}), if expect { "Ok" } else { "Err" },
-               match &res { Ok(v) => verdict(v), Err(p) => format!("panic: {}", p) }, ok);
+        // the name the caller asks the summary to carry has no say in the verdict
+        for summary_name in [None, Some("top"), Some("")] {
+            let (lay, d) = simple(&signers, 30);
+            let n = keys.len();
+            let res = no_panic(|| in_toto_verify(&lay, keys.clone(), d.path().to_str().unwrap(), summary_name));
+            let ok = matches!(&res, Ok(v) if v.is_ok() == expect);
+            r.case(id, json!({"signers": signers.len(), "caller_keys": n, "summary_name": summary_name}), if expect { "Ok" } else { "Err" },
+                   match &res { Ok(v) => verdict(v), Err(p) => format!("panic: {}", p) }, ok);
+        }
     }
     // an owner signing twice with a randomized scheme does not stand in for a second owner
     {
@@ -227,7 +230,7 @@ pub fn run_c06(r: &mut Report) {
         }
     }
     // expiry is checked for every shape of layout: no steps at all, inspections only, one step, and as a delegated sub-layout without steps
-    for shape in ["no-steps", "inspection-only", "one-step", "stepless-sub-layout"] {
+    for shape in ["no-steps", "inspection-only", "one-step", "stepless-sub-layout", "two-steps-with-one-name", "sub-layout-with-two-steps-of-one-name"] {
         for days in [-1i64, -400, 30] {
             let _g = crate::c08::CWD_LOCK.lock().unwrap();
             let work = tmpdir(); let d = tmpdir();
@@ -237,6 +240,15 @@ pub fn run_c06(r: &mut Report) {
                 "no-steps" => signed_layout(&layout(vec![], vec![], &[], days), &[&o1]),
                 "inspection-only" => signed_layout(&layout(vec![], vec![insp], &[], days), &[&o1]),
                 "one-step" => { write_link(d.path(), "a", ka.key_id(), &signed_link(&link("a", &[], &[("x", 1)]), &[&ka])); signed_layout(&layout(vec![step("a", 1, &[&ka], allow_all(), allow_all())], vec![], &[&ka], days), &[&o1]) }
+                "two-steps-with-one-name" => { write_link(d.path(), "a", ka.key_id(), &signed_link(&link("a", &[], &[("x", 1)]), &[&ka]));
+                    signed_layout(&layout(vec![step("a", 1, &[&ka], allow_all(), allow_all()), step("a", 1, &[&ka], allow_all(), allow_all())], vec![], &[&ka], days), &[&o1]) }
+                "sub-layout-with-two-steps-of-one-name" => {
+                    let sub = signed_layout(&layout(vec![step("i", 1, &[&ka], allow_all(), allow_all()), step("i", 1, &[&ka], allow_all(), allow_all())], vec![], &[&ka], days), &[&ka]);
+                    write_link(d.path(), "a", ka.key_id(), &sub);
+                    let sd = d.path().join(format!("a.{}", ka.key_id().prefix()));
+                    std::fs::create_dir_all(&sd).unwrap();
+                    write_link(&sd, "i", ka.key_id(), &signed_link(&link("i", &[], &[("x", 1)]), &[&ka]));
+                    signed_layout(&layout(vec![step("a", 1, &[&ka], allow_all(), allow_all())], vec![], &[&ka], 30), &[&o1]) }
                 _ => { let sub = signed_layout(&layout(vec![], vec![], &[], days), &[&ka]);
                        write_link(d.path(), "a", ka.key_id(), &sub);
                        std::fs::create_dir_all(d.path().join(format!("a.{}", ka.key_id().prefix()))).unwrap();
@@ -322,6 +334,7 @@ pub fn run_c06(r: &mut Report) {
 }
 
 pub fn run_c04(r: &mut Report) {
+    signature_value_shapes(r);
     let k1 = key(1);
     let k2 = key(2);
     let k3 = key(3);
@@ -540,6 +553,44 @@ pub fn run_c07(r: &mut Report) {
 
 /// n links of one step, all identical except the one at rank `pos` (in key-id order), which dissents in `kind`.
 /// Shared by C07 (any dissent must be fatal when threshold >= 2) and C13 (the outcome is the same on every run).
+/// the signature VALUE is checked as a whole: a valid signature with bytes appended, prepended, dropped or doubled is not a valid
+/// signature, for every key type (block level and through final-product verification)
+pub fn signature_value_shapes(r: &mut Report) {
+    use in_toto::crypto::SignatureScheme as S;
+    let l = link("a", &[], &[("x", 1)]);
+    let owner = key(1);
+    let mut keys: Vec<(String, PrivateKey)> = vec![("ed25519".into(), key(2))];
+    for (n, f, sch) in [("rsassa-pss-sha256", "rsa/rsa-2048.pk8.der", S::RsaSsaPssSha256), ("ecdsa-sha2-nistp256", "ecdsa/ec.pk8.der", S::EcdsaP256Sha256)] {
+        if let Some(k) = std::fs::read(format!("/repo/tests/{}", f)).ok().and_then(|d| PrivateKey::from_pkcs8(&d, sch).ok()) { keys.push((n.into(), k)); }
+    }
+    for (kind, k) in &keys {
+        let genuine = signed_link(&l, &[k]);
+        let g = serde_json::to_value(&genuine.signatures[0]).unwrap();
+        let hex = g["sig"].as_str().unwrap().to_string();
+        let shapes: Vec<(&str, String)> = vec![("one zero byte appended", format!("{}00", hex)), ("sixteen bytes appended", format!("{}{}", hex, "a5".repeat(16))), ("doubled", format!("{}{}", hex, hex)),
+            ("one byte prepended", format!("00{}", hex)), ("last byte dropped", hex[..hex.len() - 2].to_string()), ("first byte dropped", hex[2..].to_string()), ("empty", String::new()),
+            ("upper-case hex", hex.to_uppercase())];
+        for (what, sh) in shapes {
+            let sig: Result<in_toto::crypto::Signature, _> = serde_json::from_value(json!({"keyid": g["keyid"], "sig": sh}));
+            let sig = match sig { Ok(s) => s, Err(_) => continue };      // a reader may refuse the spelling outright
+            let same_bytes = serde_json::to_value(&sig).unwrap()["sig"] == g["sig"];
+            let mut m = genuine.clone();
+            m.signatures = vec![sig];
+            let res = no_panic(|| m.verify(1, [k.public()]));
+            let expect_ok = same_bytes;     // only a spelling of the very same bytes may verify
+            r.case("signature-value-shapes", json!({"key": kind, "signature": what, "level": "block"}), if expect_ok { "Ok" } else { "Err" },
+                   format!("{:?}", res.as_ref().map(|v| v.as_ref().map(|_| "Ok").map_err(|e| e.to_string()))), matches!(&res, Ok(v) if v.is_ok() == expect_ok));
+            // and end to end, as the evidence of a step
+            let d = tmpdir();
+            write_link(d.path(), "a", k.key_id(), &m);
+            let lay = signed_layout(&layout(vec![step("a", 1, &[k], allow_all(), allow_all())], vec![], &[k], 30), &[&owner]);
+            let res2 = no_panic(|| in_toto_verify(&lay, owner_keys(&[&owner]), d.path().to_str().unwrap(), None));
+            r.case("signature-value-shapes", json!({"key": kind, "signature": what, "level": "final-product verification"}), if expect_ok { "Ok" } else { "Err" },
+                   match &res2 { Ok(v) => verdict(v), Err(p) => format!("panic: {}", p) }, matches!(&res2, Ok(v) if v.is_ok() == expect_ok));
+        }
+    }
+}
+
 /// links that carry MORE signatures than the one they are filed under (co-signed evidence): a co-signer's own, dissenting link still
 /// counts as dissent, whichever of the two files sorts first
 pub fn cosigned_links(r: &mut Report) {
